@@ -19,7 +19,7 @@ from `modified` first, after which every list below is duplicate free.
 namespace Malt.Conv.BlockVars
 
 /-- `QN.is_composite()` on `str(qn)`. -/
-def isComposite (s : String) : Bool := s.any fun c => c == '.' || c == '['
+def isComposite (s : String) : Bool := s.toList.any fun c => c == '.' || c == '['
 
 def isIdentChar (c : Char) : Bool := c.isAlphanum || c == '_' || c.toNat ≥ 128
 
